@@ -248,7 +248,9 @@ def projection (h : HN) (axes : List (Sum Int String)) : R HN := do
   let drop := ((List.range h.axes.length).filter fun i => !ax.contains i).reverse
   pure { h with axes := keepAx.filterMap (h.axes[·]?), names := keepAx.filterMap (h.names[·]?),
                 freq := h.freq.sumAxes drop, err2 := h.err2.sumAxes drop, missed := some 0,
-                keep := true }
+                keep := true,
+                -- `ndarray.sum` accumulates narrow integers in the platform integer
+                dtype := if h.dtype.isInt then .i64 else h.dtype }
 
 /-- `select(axis, int)`: the axis and its name disappear -/
 def selectInt (h : HN) (axis : Nat) (i : Int) : R HN := do
